@@ -7,6 +7,7 @@ import (
 	"fmt"
 	"math/big"
 	"os"
+	"strings"
 	"testing"
 	"time"
 
@@ -601,10 +602,27 @@ func runCase(c Case) (o *h.Outcome) {
 			}
 		}
 		res = pr.Settle(c.Order, c.Concurrent, c.Secondary)
-		// a party whose withdrawal met the injected fault settles again
-		for i := 0; i < 2; i++ {
-			if c.WithdrawFault[i] && res[i].Err != nil && !res[i].Hung {
-				o.Class("settle-repeated-after-withdraw-fault")
+		// a party whose withdrawal met the injected fault settles again.  So does a
+		// party whose Settle started after the ledger channel's registered event
+		// was handled but before a sub-channel's own event reached its machine
+		// ("can only withdraw after registering"): nothing has been paid or lost by
+		// the failed call and the property does not promise that one call suffices
+		// (same rule as in C04, DESIGN.md section 9).  Other errors, and errors that
+		// persist, are reported.
+		for attempt := 0; attempt < 2; attempt++ {
+			for i := 0; i < 2; i++ {
+				if res[i].Err == nil || res[i].Hung {
+					continue
+				}
+				msg := res[i].Err.Error()
+				switch {
+				case c.WithdrawFault[i] && strings.Contains(msg, "transient failure injected"):
+					o.Class("settle-repeated-after-withdraw-fault")
+				case anySubOpen && strings.Contains(msg, "can only withdraw after registering"):
+					o.Class("settle-repeated-after-phase-error")
+				default:
+					continue
+				}
 				pr.Env.Quiesce(10*time.Millisecond, sim.HangLimit)
 				r2 := pr.Settle([]int{i}, false, c.Secondary)
 				res[i] = r2[i]
